@@ -101,6 +101,28 @@ func (a *sessionAwareAdapter) RestoreSession(
 ) (session *SessionToPersist, ok bool) {
 	a.mu.Lock()
 	defer a.mu.Unlock()
+	return a.restoreSession(pid, offset)
+}
+
+func (a *sessionAwareAdapter) RestoreSessionFunc(
+	pid PrivateSessionID,
+	offset string,
+	admit func(session *SessionToPersist),
+) (ok bool) {
+	// Broadcast holds the same lock from logging a packet to the end of its delivery.
+	a.mu.Lock()
+	defer a.mu.Unlock()
+	session, ok := a.restoreSession(pid, offset)
+	if ok {
+		admit(session)
+	}
+	return ok
+}
+
+func (a *sessionAwareAdapter) restoreSession(
+	pid PrivateSessionID,
+	offset string,
+) (session *SessionToPersist, ok bool) {
 	sessionWithTS, ok := a.sessions[pid]
 	if !ok {
 		return nil, false
